@@ -143,6 +143,83 @@ var keyAssign = []opt{
 	{"linked_child_ondup", "INSERT INTO t3 (uid, k) VALUES ({K1}, 1) ON DUPLICATE KEY UPDATE uid = {K5}"},
 }
 
+// statements under test of the history family (S after a prefix H on the same router)
+var hTargets = []opt{
+	{"delete_all", "DELETE FROM t"},
+	{"update_all", "UPDATE t SET k = 7"},
+	{"update_in", "UPDATE t SET k = 7 WHERE id IN ({K1}, {K4}, {K6})"},
+	{"delete_ge", "DELETE FROM t WHERE id >= {K3}"},
+	{"update_alias_le", "UPDATE t AS a SET a.v = 'z' WHERE a.id <= {K6}"},
+	{"delete_not_between", "DELETE FROM t WHERE id NOT BETWEEN {K2} AND {K6}"},
+	{"update_or", "UPDATE t SET k = 7 WHERE id = {K2} OR id = {K7}"},
+	{"delete_db_ne", "DELETE FROM db.t WHERE id <> {K3}"},
+	{"update_nonkey", "UPDATE t SET v = 'z', k = k + 1 WHERE k = 1 OR k IS NULL"},
+}
+
+// runHistory executes the prefix statements and then the statement under test on ONE
+// router (a fresh one per case) and judges the statement under test: (a) the C05 oracle
+// against the single database, (b) the statements it sends to the backends must be the
+// ones a router that has executed nothing sends.
+func runHistory(w *worker, c Case) outcome {
+	l := parseLayout(c.Layout)
+	rg := w.rig(l).Fresh()
+	st, err := rg.NewStore(contentRows(c.Content))
+	if err != nil {
+		ev.Fatalf("%v", err)
+	}
+	var sqls []string
+	for _, h := range c.Hist {
+		sql := rig.Subst(rig.Prefixes[h].SQL, l)
+		sqls = append(sqls, sql)
+		rg.Apply(st, sql)
+		ref, sh, _ := rg.TRows(st)
+		if !rig.SameRows(ref, sh) {
+			// the prefix itself is handled differently (another property's business, or
+			// outside the reference's subset): nothing can be said about S after it
+			return outcome{status: "prefix_diverged", sql: strings.Join(sqls, "; ")}
+		}
+	}
+	sql := rig.Subst(hTargets[c.HTarget].text, l)
+	o := outcome{sql: strings.Join(append(sqls, sql), "; ")}
+	fresh := w.freshPlanOf(rg, st, sql)
+	before, _, _ := rg.TRows(st)
+	step := rg.Apply(st, sql)
+	o.shards = rig.CallsText(step.Calls)
+	o.routed = len(step.Calls)
+	for _, cl := range step.Calls {
+		if cl.Affected > 0 {
+			o.touched++
+		}
+	}
+	if step.RefErr != nil {
+		o.status, o.errText = "invalid", step.RefErr.Error()
+		return o
+	}
+	want, got, misplaced := rg.TRows(st)
+	switch {
+	case (step.GaeaErr == nil) != (fresh.err == nil) || strings.Join(o.shards, "\n") != fresh.calls:
+		o.status, o.kind = "violation", "plan_differs_after_history"
+		o.detail = fmt.Sprintf("after the prefix the statement is sent as %v (error %v), a fresh router sends [%s] (error %v)", o.shards, step.GaeaErr, strings.ReplaceAll(fresh.calls, "\n", " "), fresh.err)
+	case step.GaeaErr != nil:
+		if rig.SameRows(got, before) {
+			o.status, o.errText = "rejected_exec", step.GaeaErr.Error()
+		} else {
+			o.status, o.kind, o.detail = "violation", "partial_error", fmt.Sprintf("error %v after some shards were changed", step.GaeaErr)
+		}
+	case !rig.SameRows(want, got):
+		o.status, o.kind = "violation", "rows"
+		o.detail = fmt.Sprintf("shards hold %v, single database holds %v", got, want)
+	case step.Affected != step.RefAff:
+		o.status, o.kind = "violation", "affected_rows"
+		o.detail = fmt.Sprintf("reported %d affected rows, single database reports %d", step.Affected, step.RefAff)
+	case misplaced != "":
+		o.status, o.kind, o.detail = "violation", "moved_row", misplaced
+	default:
+		o.status = "ok"
+	}
+	return o
+}
+
 func subst(s, qual string, l rig.Layout) string {
 	s = strings.ReplaceAll(s, "{id}", qual+"id")
 	if strings.Contains(s, "{K") {
@@ -160,6 +237,8 @@ type Case struct {
 	Tree    [3]int   `json:"tree"`
 	Content []int    `json:"content"`
 	KeyStmt int      `json:"key_stmt"` // >= 0: index into keyAssign instead of Tmpl/Tree
+	Hist    []int    `json:"hist,omitempty"` // history case: rig.Prefixes executed first on the same router
+	HTarget int      `json:"h_target"`       // history case: index into hTargets
 	SQL     string   `json:"sql,omitempty"`
 	Rows    []string `json:"rows,omitempty"`
 	Shards  []string `json:"shard_sqls,omitempty"`
@@ -204,7 +283,31 @@ func contentRows(c []int) []rig.Row {
 	return rows
 }
 
-type worker struct{ rigs map[string]*rig.Rig }
+type worker struct {
+	rigs  map[string]*rig.Rig
+	fresh map[string]freshPlan // (layout, statement) -> what a router that has executed nothing sends
+}
+
+type freshPlan struct {
+	calls string
+	err   error
+}
+
+// freshPlanOf is the differential reference of the history family. The statements a plan
+// sends do not depend on the data, so one execution per (layout, statement) is enough.
+func (w *worker) freshPlanOf(rg *rig.Rig, st *rig.Store, sql string) freshPlan {
+	k := rg.L.Name() + "|" + sql
+	if w.fresh == nil {
+		w.fresh = map[string]freshPlan{}
+	}
+	if f, ok := w.fresh[k]; ok {
+		return f
+	}
+	step := rg.Fresh().Apply(st.Clone(), sql)
+	f := freshPlan{calls: strings.Join(rig.CallsText(step.Calls), "\n"), err: step.GaeaErr}
+	w.fresh[k] = f
+	return f
+}
 
 func (w *worker) rig(l rig.Layout) *rig.Rig {
 	if rg := w.rigs[l.Name()]; rg != nil {
@@ -308,6 +411,9 @@ func prepare(rg *rig.Rig, c Case) *prepared {
 
 // run executes one case from scratch: own plan, own store.
 func run(w *worker, c Case) outcome {
+	if len(c.Hist) > 0 {
+		return runHistory(w, c)
+	}
 	l := parseLayout(c.Layout)
 	rg := w.rig(l)
 	st, err := rg.NewStore(contentRows(c.Content))
@@ -413,6 +519,14 @@ func describe(l rig.Layout, content []int) []string {
 
 func features(c Case, l rig.Layout, kind string) map[string]string {
 	f := map[string]string{"layout_rule": l.Rule, "mismatch": kind}
+	if len(c.Hist) > 0 {
+		f["stmt"] = "history:" + hTargets[c.HTarget].name
+		f["prefix_1"], f["prefix_2"] = rig.Prefixes[c.Hist[0]].Name, "-"
+		if len(c.Hist) > 1 {
+			f["prefix_2"] = rig.Prefixes[c.Hist[1]].Name
+		}
+		return f
+	}
 	if c.KeyStmt >= 0 {
 		f["stmt"] = "key_assign:" + keyAssign[c.KeyStmt].name
 		return f
@@ -438,7 +552,9 @@ var (
 // row can be dropped and the tree cannot be cut down to one of its atoms).
 var violSet sync.Map
 
-func caseKey(c Case) string { return fmt.Sprint(c.Layout, c.Tmpl, c.Tree, c.Content, c.KeyStmt) }
+func caseKey(c Case) string {
+	return fmt.Sprint(c.Layout, c.Tmpl, c.Tree, c.Content, c.KeyStmt, c.Hist, c.HTarget)
+}
 
 func violates(w *worker, c Case) bool {
 	k := caseKey(c)
@@ -455,7 +571,7 @@ func violates(w *worker, c Case) bool {
 func report(r *ev.Run, w *worker, c Case, first outcome) {
 	l := parseLayout(c.Layout)
 	violSet.Store(caseKey(c), true)
-	if c.KeyStmt < 0 {
+	if c.KeyStmt < 0 && len(c.Hist) == 0 {
 		for i := range c.Content {
 			cc := c
 			cc.Content = append(append([]int{}, c.Content[:i]...), c.Content[i+1:]...)
@@ -472,7 +588,7 @@ func report(r *ev.Run, w *worker, c Case, first outcome) {
 			first.kind = "unstable"
 		}
 	}
-	if c.KeyStmt < 0 {
+	if c.KeyStmt < 0 && len(c.Hist) == 0 {
 		for i := range c.Content {
 			cc := c
 			cc.Content = append(append([]int{}, c.Content[:i]...), c.Content[i+1:]...)
@@ -497,11 +613,21 @@ func report(r *ev.Run, w *worker, c Case, first outcome) {
 			}
 		}
 	}
+	if len(c.Hist) == 2 {
+		for i := range c.Hist {
+			cc := c
+			cc.Hist = []int{c.Hist[1-i]}
+			if violates(w, cc) {
+				r.Add("violations_nonminimal", 1)
+				return
+			}
+		}
+	}
 	r.Add("violations_minimal", 1)
 	feat := features(c, l, first.kind)
 	c.SQL, c.Rows, c.Shards = first.sql, describe(l, c.Content), first.shards
 	classMu.Lock()
-	classes[fmt.Sprintf("%s stmt=%s form=%s a=%s b=%s mismatch=%s", l.Rule, feat["stmt"], feat["form"], feat["atom_a"], feat["atom_b"], first.kind)]++
+	classes[fmt.Sprintf("%s stmt=%s form=%s a=%s b=%s h=%s,%s mismatch=%s", l.Rule, feat["stmt"], feat["form"], feat["atom_a"], feat["atom_b"], feat["prefix_1"], feat["prefix_2"], first.kind)]++
 	classMu.Unlock()
 	r.Violation(ev.Witness{Summary: fmt.Sprintf("[%s] %s on %v: %s", c.Layout, first.sql, c.Rows, first.detail), Features: feat, Case: c})
 }
@@ -574,11 +700,38 @@ func main() {
 		tr  [3]int
 		tri int
 		ks  int
+		hist int // > 0: history family, index+1 into hists
 	}
 	var items []item
 	for _, l := range layouts {
 		for ks := range keyAssign {
 			items = append(items, item{l: l, ks: ks})
+		}
+	}
+	// the history family: every prefix of 1 or 2 statements x every statement under test,
+	// on one layout per rule type (quick) / all layouts (thorough)
+	var hists [][]int
+	for a := range rig.Prefixes {
+		hists = append(hists, []int{a})
+	}
+	for a := range rig.Prefixes {
+		for b := range rig.Prefixes {
+			hists = append(hists, []int{a, b})
+		}
+	}
+	hContents := [][]int{{0, 1, 2, 3, 4, 5, 6, 7}, {0, 2, 5, 9}}
+	seenRule := map[string]bool{}
+	var hLayouts []rig.Layout
+	for _, l := range layouts {
+		if r.Quick() && seenRule[l.Rule] {
+			continue
+		}
+		seenRule[l.Rule] = true
+		hLayouts = append(hLayouts, l)
+	}
+	for hi := range hists {
+		for _, l := range hLayouts {
+			items = append(items, item{l: l, ks: -1, hist: hi + 1})
 		}
 	}
 	// simplest trees first, all layouts and templates inside each tree
@@ -625,6 +778,7 @@ func main() {
 			}
 		}
 	}
+	histNontrivial := map[string]bool{}
 	errClasses := map[string]int{}
 	noteErr := func(c string) {
 		classMu.Lock()
@@ -655,6 +809,58 @@ func main() {
 			} else {
 				r.Add("key_assigning_statements_rejected", 1)
 			}
+			return
+		}
+		if it.hist > 0 {
+			var nEval, nOK, nDiv, nRej, nNT int64
+			for ti := range hTargets {
+				for hc, content := range hContents {
+					if r.Quick() && hc > 0 && len(hists[it.hist-1]) > 1 {
+						continue // quick: two-statement prefixes meet the all-keys content only
+					}
+					c := Case{Layout: it.l.Name(), KeyStmt: -1, Hist: hists[it.hist-1], HTarget: ti, Content: content}
+					o := run(w, c)
+					switch o.status {
+					case "prefix_diverged":
+						nDiv++
+						noteErr("prefix diverged: " + rig.Prefixes[c.Hist[len(c.Hist)-1]].Name)
+						continue
+					case "invalid":
+						continue
+					case "rejected_exec":
+						nEval++
+						nRej++
+						continue
+					}
+					nEval++
+					if o.touched >= 2 {
+						nNT++
+						classMu.Lock()
+						histNontrivial[fmt.Sprint(c.Hist, ti, hc)] = true
+						classMu.Unlock()
+					}
+					if o.status == "violation" {
+						report(r, w, c, o)
+					} else {
+						nOK++
+						if o.touched >= 2 && len(c.Hist) == 2 {
+							sampleMu.Lock()
+							if !sampled["history"] {
+								sampled["history"] = true
+								c.SQL, c.Rows, c.Shards = o.sql, describe(it.l, content), o.shards
+								r.Sample(c)
+							}
+							sampleMu.Unlock()
+						}
+					}
+				}
+			}
+			r.Add("evaluations", nEval)
+			r.Add("history_cases", nEval)
+			r.Add("history_cases_held", nOK)
+			r.Add("history_prefix_diverged", nDiv)
+			r.Add("history_rejected", nRej)
+			r.Add("history_changed_rows_on_two_or_more_tables", nNT)
 			return
 		}
 		maxRows := rowsSingle
@@ -723,7 +929,9 @@ func main() {
 	for _, w := range ntBits {
 		nNontriv += bits.OnesCount64(w)
 	}
+	nNontriv += len(histNontrivial)
 	r.Set("distinct_nontrivial", nNontriv)
+	r.Set("history_family", fmt.Sprintf("%d prefixes (rig.Prefixes) -> %d histories of length 1-2 x %d statements under test x %d contents, fresh router per case", len(rig.Prefixes), len(hists), len(hTargets), len(hContents)))
 	r.Set("rejections_by_error_class", errClasses)
 	var names []string
 	for _, l := range layouts {
